@@ -36,7 +36,7 @@ func tuples(k, n int, fn func(ix []int)) {
 }
 
 func checkC10(r *harness.Run) harness.Coverage {
-	r.Rule = "26 function names + 2 unknown names x arity 0..3 x every argument tuple over U13 = {null,true,1,\"a\",[],[1],[\"a\"],[1,\"a\"],[[1]],{},{\"a\":1},&a,&@} as literals, and through document fields (every pattern of field / expression-reference positions x all value assignments); arity 4 over a 6-value subset; by-expression functions over arrays of length 0..3 with keys number/string/null/bool/array/mixed; arity 1-2 over 19 further values (arrays with a null/boolean/array/object element, more scalars); every arity 1-2 call in 15 enclosing contexts (after a null left-hand side, multi-select member, not_null argument, projection right-hand side, ...). Oracle: the signature table of the reference model decides well-typed; every ill-typed, wrong-arity or unknown call must be an error. Non-trivial = reference outcome non-null or error; distinct by (expression, document)"
+	r.Rule = "26 function names + 2 unknown names x arity 0..3 x every argument tuple over U13 = {null,true,1,\"a\",[],[1],[\"a\"],[1,\"a\"],[[1]],{},{\"a\":1},&a,&@} as literals, and through document fields (every pattern of field / expression-reference positions x all value assignments); arity 4 over a 6-value subset; by-expression functions over arrays of length 0..3 with keys number/string/null/bool/array/mixed; arity 1-2 over 19 further values (arrays with a null/boolean/array/object element, more scalars); every arity 1-2 call in 23 enclosing contexts (after a null left-hand side, multi-select member, not_null argument, projection right-hand side, ...). Oracle: the signature table of the reference model decides well-typed; every ill-typed, wrong-arity or unknown call must be an error. Non-trivial = reference outcome non-null or error; distinct by (expression, document)"
 	r.Assumptions = []string{"signature table: model/eval.go (from the JMESPath function specification)", "gap G11: an expression reference in a position typed any gives no verdict"}
 	names := callNames()
 	lits := []string{}
@@ -227,7 +227,8 @@ func checkC10(r *harness.Run) harness.Coverage {
 	// (6) every arity-1 and arity-2 call inside a larger expression: after a null or non-null left-hand side,
 	// as a multi-select member, after a pipe, as an argument of not_null before/after a non-null argument,
 	// as a projection right-hand side. The reference evaluator decides whether the call is reached.
-	ctxs := []string{"c.%s", "a.%s", "b[5].%s", "[%s]", "{x:%s}", "@|%s", "not_null(a, %s)", "not_null(%s, a)", "not_null(c, a, %s)", "[a, %s]", "%s.a", "%s|a", "b[*].%s", "b[?%s]", "abs(not_null(a, %s))"}
+	ctxs := []string{"c.%s", "a.%s", "b[5].%s", "[%s]", "{x:%s}", "@|%s", "not_null(a, %s)", "not_null(%s, a)", "not_null(c, a, %s)", "[a, %s]", "%s.a", "%s|a", "b[*].%s", "b[?%s]", "abs(not_null(a, %s))",
+		"%s || a", "%s && a", "c || %s", "a && %s", "!%s", "%s == a", "a != %s", "[?%s || a]"}
 	var ctxExprs []exprCase
 	for _, name := range names {
 		for n := 1; n <= 2; n++ {
